@@ -616,7 +616,9 @@ def main():
     # segment spaces whose support is not a leading block of elements: position in support_elements != element number
     inner = [("DP", 0, {"segments": [2]}), ("DP", 1, {"segments": [2]}), ("P", 1, {"segments": [2], "include_boundary_dofs": True}),
              ("RWG", 0, {"segments": [2], "include_boundary_dofs": True})]
-    for sp in [P1B, DP0, DP1, RWGB, SNCB, seg, ("RWG", 0, {"segments": [1, 2]})] + inner:
+    # spaces built with swapped normals: the SNC basis is (swapped normal) x RWG, the sign must follow the space's normal multipliers
+    swapped = [("SNC", 0, {"include_boundary_dofs": True, "swapped_normals": [2]}), ("RWG", 0, {"include_boundary_dofs": True, "swapped_normals": [2]})]
+    for sp in [P1B, DP0, DP1, RWGB, SNCB, seg, ("RWG", 0, {"segments": [1, 2]})] + inner + swapped:
         for what in ("evaluate", "integrate", "centers", "vertices"):
             run.add("GridFunction.%s[tetra %s%d%s]" % (what, sp[0], sp[1], sorted(sp[2])), "post", ob_gridfunction, "tetra", sp, what)
         for vec in (True, False):
